@@ -46,8 +46,12 @@ class AgentSim(sysrun.SymSim):
                 v1, v2 = f'{self.sid}#{k}.{j}', f'{self.sid}.f#{k}.{j}'
                 mon.request(self.sid, 'set', time)
                 try:
-                    yield asyncio.gather(self.mosaik.set_data({f'{self.sid}.e': {f'{target}.e': {'im': v1}}}),
-                                         self.mosaik.set_data({f'{self.sid}.f': {f'{target}.e': {'im': v2}}}))
+                    if eng.flag(f'{self.sid}.onecall{k}.{j}'):
+                        # both agents' values in ONE set_data call (two source ids writing the same entity and attribute)
+                        yield self.mosaik.set_data({f'{self.sid}.e': {f'{target}.e': {'im': v1}}, f'{self.sid}.f': {f'{target}.e': {'im': v2}}})
+                    else:
+                        yield asyncio.gather(self.mosaik.set_data({f'{self.sid}.e': {f'{target}.e': {'im': v1}}}),
+                                             self.mosaik.set_data({f'{self.sid}.f': {f'{target}.e': {'im': v2}}}))
                 except RemoteException as e:
                     mon.remote_refused(self.sid, 'set', time, e)
                     raise
